@@ -23,6 +23,7 @@ import (
 	"gverif/engine/overlap"
 	"gverif/engine/paramuse"
 	"gverif/engine/pool"
+	"gverif/engine/sibx"
 	"gverif/engine/stride"
 	"gverif/engine/twin"
 )
@@ -52,7 +53,7 @@ var propertyCanaries = map[string][]string{
 	"C05": {"OVERLAP.guard", "MODSET.mat"},
 	"C06": {"OKFLOW.use", "OKFLOW.cond", "OKFLOW.report", "FACT.normorder", "FACT.state", "NILRECV"},
 	"C07": {"ARGS.order", "ARGS.lencheck", "ARGS.query", "MAT.order", "ASM.window", "ASM.tail", "STRIDE.len"},
-	"C08": {"PARAMUSE.read", "ASM.window", "ASM.tail", "ASM.units", "STRIDE.extent"},
+	"C08": {"PARAMUSE.read", "ASM.window", "ASM.tail", "ASM.units", "STRIDE.extent", "SIB.guards"},
 	"C09": {"GOPROTO.capture", "GOPROTO.lockpair", "GOPROTO.sibling", "POOL.uaf"},
 	"C12": {"GRAPHINV.converse", "GRAPHINV.uid", "GRAPHINV.iter", "TWIN.sibstate"},
 	"C16": {"DECODE.mul", "DECODE.selfcmp", "DECODE.clone", "DECODE.fields"},
@@ -112,6 +113,7 @@ func init() {
 		{"TWIN.sibstate", "graph/iterator/lines.go", "func (e *OrderedWeightedLines) Reset() {\n\te.idx = -1", "func (e *OrderedWeightedLines) Reset() {\n\te.idx = 0", func() *core.Result { return twin.Run(twin.Which{SiblingState: []string{"graph/iterator"}}) }},
 		{"TWIN.bounds", "mat/index_bound_checks.go", "if pj < 0 || b.mat.KL+b.mat.KU+1 <= pj {\n\t\treturn 0", "if pj < 0 || b.mat.Stride <= pj {\n\t\treturn 0", func() *core.Result { return twin.Run(twin.Which{Bounds: true, BoundsFamilies: []string{"mat-index"}}) }},
 		{"ASM.window", "internal/asm/f64/dot_amd64.s", "\tMOVSD 0(R9)(SI*8), X1\n\tMULSD X1, X0", "\tMOVUPD 0(R9)(SI*8), X1\n\tMULSD X1, X0", func() *core.Result { return asmx.Run() }},
+		{"SIB.guards", "internal/asm/c64/stubs.go", "\tif math32.IsInf(scale, 1) {\n\t\treturn math32.Inf(1)\n\t}\n", "", func() *core.Result { return sibx.Run() }},
 		{"ASM.tail", "internal/asm/f64/axpyunitary_amd64.s", "tail_one:\n\tMOVSD (X_PTR)(IDX*8), X2", "tail_one:\n\tMOVUPS (X_PTR)(IDX*8), X2", func() *core.Result { return asmx.Run() }},
 		{"ASM.units", "internal/asm/f64/ger_amd64.s", "LEAQ    (X_PTR)(TMP2*1), X_PTR", "LEAQ    (X_PTR)(TMP2*SIZE), X_PTR", func() *core.Result { return asmx.Run() }},
 	}
